@@ -37,11 +37,16 @@ type Loader struct {
 
 // NewConfigLoader is Loader constructor
 func NewConfigLoader(dst *Config) Loader {
+	// without $HOME there is no global configuration to look for, and without a working directory relative
+	// paths stay as they are given (and are reported when they cannot be opened): neither aborts the process
+	homeDir, _ := os.UserHomeDir()
+	dir, _ := os.Getwd()
+
 	return Loader{
 		dst:     dst,
 		imports: make(map[string]bool),
-		homeDir: utils.MustGetUserHomeDir(),
-		dir:     utils.MustGetwd(),
+		homeDir: homeDir,
+		dir:     dir,
 	}
 }
 
